@@ -216,6 +216,7 @@ class Static:
         self.paths = []
         self.frames = []           # (method_id, call_site tuple, call_path tuple of tuples)
         self.frame_sites = set()   # mapped call sites of analysed frames
+        self.bounds_seen = {}          # mapped call site -> (max per-call-site counter, max cycles of the path) seen at its visits
         self.resolved_sites = set()    # mapped (caller, call stmt, callee) that P3 computed as callee ids of a call statement
         self.analysed_methods = set()   # defs with >= 1 analysed frame
         self.entry_points = set()
@@ -255,11 +256,24 @@ def run_lian(files, enable_p2=False, entry=None):
     gcls = gss.GlobalStmtStates
     orig_ctms = gcls.compute_target_method_states
     resolved = set()
+    bounds_seen = {}
+    from lian.common_structs import CallSite
 
     def rec_ctms(self, stmt_id, stmt, status, in_states, callee_method_ids, *a, **k):
         try:
             for c in callee_method_ids:
-                resolved.add((int(self.frame.method_id), int(stmt_id), int(c)))
+                t = (int(self.frame.method_id), int(stmt_id), int(c))
+                resolved.add(t)
+                # what the two documented bounds see at this visit (measured, not decided here): the per-call-site
+                # counter and the number of cycles the path through this call site would have
+                try:
+                    cs = CallSite(self.frame.method_id, stmt_id, c)
+                    cnt = int(self.frame.call_site_analyze_counter.get(cs, 0))
+                    cyc = int(self.frame.call_path.add_callsite(cs).count_cycles())
+                    old = bounds_seen.get(t, (0, 0))
+                    bounds_seen[t] = (max(old[0], cnt), max(old[1], cyc))
+                except Exception:
+                    pass
         except Exception:
             pass
         return orig_ctms(self, stmt_id, stmt, status, in_states, callee_method_ids, *a, **k)
@@ -312,6 +326,9 @@ def run_lian(files, enable_p2=False, entry=None):
             m = st.map_site(t)
             if m is not None:
                 st.resolved_sites.add(m)
+                if t in bounds_seen:
+                    o = st.bounds_seen.get(m, (0, 0))
+                    st.bounds_seen[m] = (max(o[0], bounds_seen[t][0]), max(o[1], bounds_seen[t][1]))
         st.frames = box
         for mid, site, path in box:
             d = st.methods.get(mid)
@@ -434,7 +451,12 @@ def evaluate(case, dyn=None, st=None):
     info["not_analysed"] = sorted(not_analysed)
     info["present"] = sum(1 for e in edges if e in st.sites)
 
-    BOUNDS = ("cycle-cutoff", "call-site-budget", "context-not-analysed")
+    BOUNDS = ("cycle-cutoff", "call-site-budget", "context-not-analysed", "skipped-below-the-bounds")
+    try:
+        from lian.config import config as _cfg
+        MAX_CALL_SITE_ROUNDS = int(_cfg.MAX_ANALYSIS_ROUND_FOR_CALL_SITE)
+    except Exception:
+        MAX_CALL_SITE_ROUNDS = 2
 
     def classify_edge(e, mincyc, resolved):
         """root-cause class of a discrepancy on edge e.  resolved: the callee was among the callee ids that P3 computed
@@ -442,9 +464,17 @@ def evaluate(case, dyn=None, st=None):
         edge was lost by one of the skip rules of compute_target_method_states."""
         k, via = kind_of(kinds, e)
         if resolved:
-            if mincyc >= 2:
-                return ("cycle-cutoff", "-")        # callee_path.count_cycles() > 1
-            return ("call-site-budget", "-")        # call_site_analyze_counter > MAX_ANALYSIS_ROUND_FOR_CALL_SITE
+            seen = st.bounds_seen.get(e)
+            if seen is None:
+                if mincyc >= 2:
+                    return ("cycle-cutoff", "-")        # callee_path.count_cycles() > 1
+                return ("call-site-budget", "-")        # call_site_analyze_counter > MAX_ANALYSIS_ROUND_FOR_CALL_SITE
+            if seen[1] > 1:
+                return ("cycle-cutoff", "-")
+            if seen[0] > MAX_CALL_SITE_ROUNDS:
+                return ("call-site-budget", "-")
+            # resolved, neither bound was reached at any visit of the call statement, and still no frame / no edge
+            return ("skipped-below-the-bounds", "-")
         if case.get("p2") and k in c07_gen.OBJECT_KINDS:
             # under --enable-p2 every call that needs a class or an instance fails alike: one root-cause family
             return ("object-call", "*")
